@@ -112,7 +112,12 @@ where
                     break self.client_shutdown(id).await;
                 }
 
-                Selected::Transport(Ok(msg)) => self.send_broker_msg(id.clone(), msg).await?,
+                Selected::Transport(Ok(msg)) => {
+                    // This fails only when the broker has shut down. Its shutdown message for
+                    // this connection may then still be queued and must reach the client. The
+                    // queue ends in any case, because the broker has dropped the sending half.
+                    let _ = self.send_broker_msg(id.clone(), msg).await;
+                }
 
                 Selected::TransportFlushed(Ok(())) => self.flush_transport = false,
 
